@@ -3872,10 +3872,11 @@ type enterFuncBody struct {
 	funcType    funcType
 	extensible  bool
 	adjustStack bool
+	needStash   bool // the scope is counted as a stash level by the compiler even if it has no bindings
 }
 
 func (e *enterFuncBody) exec(vm *vm) {
-	if e.stashSize > 0 || e.extensible {
+	if e.stashSize > 0 || e.extensible || e.needStash {
 		vm.newStash()
 		stash := vm.stash
 		stash.funcType = e.funcType
